@@ -85,6 +85,9 @@ CHECKS["C12"] = (True, "exploration", "real node, real api_v1_subs / api_v1_sub_
 CHECKS["C16"] = (True, "exploration", "real node (gossip server, handle_changes, broadcast runtime_loop, handle_sync) + real friend node + scripted foreign peer writing frames on real QUIC streams + UDP sockets as foreign members; oracle over the node's tables, the first message of each sync session and packets reaching foreign members; cluster id switched at run time",
     "Runtime monitor: uni streams whose frames each declare their own cluster id (other ids, the node's, or truncated before the id) closed by marker frames so that the stream's handling is observable; sync sessions declaring every kind of id; outgoing broadcasts and handle_sync rounds with a member table mixing clusters (foreign members are UDP sockets, some with ring-0 samples); the node's cluster id is switched at run time with all connections open and everything repeated. A row is in the node's table iff its frame declared the node's current cluster, a foreign session gets Rejection(DifferentCluster) and nothing else, and no packet reaches a foreign member.",
     "§3-C16", "the SWIM exchange itself is not run: members are written into the table directly")
+CHECKS["C13"] = (True, "fault_enumeration", "real node with subscriptions; crash images (database + subscription databases) copied by hook callbacks at the points of a subscription's life and booted through the real start-up path; shutdown in the binary's order with in-flight transactions; restart on the same files; oracle over HTTP-handler answers, subscription directories, rows vs query, change log continuity",
+    "Runtime monitor: images at sub.created, sub.initial_committed, n-th match.before_commit, running-idle, sub.draining and sub.completed are each booted with the real setup path: a subscription is served only from an image taken after it completed (then rows == query), otherwise GET by id is 404 and its directory is gone. The clean path reproduces `corrosion agent`'s shutdown order (tripwire, in-flight requests finish, drop_handles, wait for counted tasks) and checks after restart: same id, rows == query, snapshot change id == newest id of the log >= last id delivered before, resume replays identical changes, next change gets the next id.",
+    "§0.1/§3-C13", "the binary's signal handling and shutdown sequencing are reproduced in process, not executed; divergence caused by transactions committing during shutdown is the known finding F23")
 
 NOT_YET = {
 }
